@@ -346,7 +346,7 @@ func run(c Case) *stat.Failure {
 
 func TestC09(t *testing.T) {
 	defer st.Emit()
-	stat.Check(t, st, "lifecycle", stat.N(40, 2500), draw, func(c Case) *stat.Failure {
+	stat.Check(t, st, "lifecycle", stat.N(40, 1400), draw, func(c Case) *stat.Failure {
 		kinds := map[string]bool{}
 		timedOut, fault, calls := false, false, 0
 		for _, s := range c.Steps {
